@@ -129,6 +129,27 @@ Section Frame.
       eapply R_trans; [apply R_add_tflag|]. apply R_ucmd; solve_good.
   Qed.
 
+  Lemma R_req_poll c w sent dead tg v ch H o s' d' H' :
+    req_poll c w sent dead tg v ch H = (o, s', d', H') -> R H H'.
+  Proof.
+    unfold req_poll. destruct dead; [intros E; inversion E; subst; apply R_refl|].
+    destruct (negb sent).
+    - intros E; inversion E; subst. eapply R_trans; [apply R_chan_reg | apply R_push_eff].
+    - destruct (ch_buf (gch ch H)).
+      + destruct (ch_tx (gch ch H)); intros E; inversion E; subst.
+        * apply R_chan_reg.
+        * eapply R_trans; [apply R_chan_drop_rx | apply R_note].
+      + intros E; inversion E; subst. apply R_chan_drop_rx.
+  Qed.
+  Lemma R_sub_poll c w q H q' H' : sub_poll c w q H = (q', H') -> R H H'.
+  Proof.
+    unfold sub_poll. destruct q as [sent dead tg v ch|m]; [|intros E; inversion E; subst; apply R_refl].
+    destruct (req_poll c w sent dead tg v ch H) as [[[o s'] d'] H1] eqn:E1. apply R_req_poll in E1.
+    destruct o; intros E; inversion E; subst; exact E1.
+  Qed.
+  Lemma R_sub_drop q H : R H (sub_drop q H).
+  Proof. unfold sub_drop. destruct q as [sent dead tg v ch|m]; [|apply R_refl]. destruct dead; [apply R_refl | apply R_chan_drop_rx]. Qed.
+
   Lemma R_drop : forall fuel,
     (forall fs H, R H (drop_fs fuel fs H)) /\ (forall cid H, R H (drop_cmd fuel cid H)).
   Proof.
@@ -138,6 +159,8 @@ Section Frame.
       + destruct (f_leaf fs); try apply R_refl.
         * destruct dead; [apply R_refl | apply R_chan_drop_rx].
         * apply IHcmd.
+        * eapply R_trans; apply R_sub_drop.
+        * eapply R_trans; apply R_sub_drop.
       + intros fr Hh. apply R_chan_drop_rx.
     - unfold drop_cmd; fold drop_fs; fold drop_cmd.
       repeat match goal with |- R _ (fold_left ?g ?l ?H1) => eapply R_trans; [|apply (R_fold g)] end.
@@ -155,7 +178,7 @@ Section Frame.
   Ltac prim :=
     first [ apply R_push_ev | apply R_push_eff | apply R_note | apply R_chan_reg
           | apply R_chan_drop_rx | apply R_chan_drop_tx | apply R_uch | apply R_utf | apply R_wake
-          | apply R_drop_cmd | apply R_drop_fs | apply R_kill_flag | apply R_set_woken | apply R_add_gen
+          | apply R_drop_cmd | apply R_drop_fs | apply R_sub_drop | apply R_kill_flag | apply R_set_woken | apply R_add_gen
           | (apply R_ucmd; solve_good) ].
   (* R H (op1 (op2 (... H))): peel one primitive at a time from the outside *)
   Ltac rsolve :=
@@ -178,7 +201,7 @@ Section Frame.
     repeat split.
     - (* poll *)
       intros c w fs H r H' E. cbn [step_funs rpoll] in E. unfold poll_body in E.
-      destruct (f_leaf fs) as [t|sent dead tg v ch x k| |u k|cid meff mev k|n k] eqn:EL.
+      destruct (f_leaf fs) as [t|sent dead tg v ch x k| |u k|cid meff mev k|n k|qa qb x1 x2 k|qa qb x k] eqn:EL.
       + (* LRun *)
         destruct t.
         * destruct (f_stack fs); [inversion E; subst; apply R_refl | apply IHp in E; exact E].
@@ -191,14 +214,19 @@ Section Frame.
         * apply IHp in E. exact E.
         * apply IHp in E. eapply R_trans; [|exact E]. rsolve.
         * apply IHp in E. exact E.
+        * destruct (new_chan H) as [ch1 H1] eqn:E1. destruct (new_chan H1) as [ch2 H2] eqn:E2.
+          apply R_new_chan in E1. apply R_new_chan in E2. apply IHp in E.
+          eapply R_trans; [exact E1|]. eapply R_trans; eassumption.
+        * destruct (new_chan H) as [ch1 H1] eqn:E1. destruct (new_chan H1) as [ch2 H2] eqn:E2.
+          apply R_new_chan in E1. apply R_new_chan in E2. apply IHp in E.
+          eapply R_trans; [exact E1|]. eapply R_trans; eassumption.
         * destruct (new_cmd names (Some (c_epoch (gcmd c H))) (f_env fs) t1 extra H) as [cid H1] eqn:E1.
           apply R_new_cmd in E1. apply IHp in E. eapply R_trans; eassumption.
       + (* LReq *)
-        destruct dead; [inversion E; subst; apply R_refl|].
-        destruct (negb sent); [inversion E; subst; rsolve|].
-        destruct (ch_buf (gch ch H)).
-        * destruct (ch_tx (gch ch H)); inversion E; subst; rsolve.
-        * apply IHp in E. eapply R_trans; [|exact E]. rsolve.
+        destruct (req_poll c w sent dead tg v ch H) as [[[o s'] d'] H1] eqn:E1. apply R_req_poll in E1.
+        destruct o.
+        * apply IHp in E. eapply R_trans; eassumption.
+        * inversion E; subst. exact E1.
       + (* LStr *)
         destruct (f_stack fs) as [|fr rest]; [inversion E; subst; apply R_refl|].
         destruct (negb (fr_sent fr)); [inversion E; subst; rsolve|].
@@ -220,6 +248,21 @@ Section Frame.
         * apply IHp in E. eapply R_trans; [exact E1|]. eapply R_trans; [|exact E]. rsolve.
       + (* LYield *)
         destruct n; [apply IHp in E; exact E|]. inversion E; subst. rsolve.
+      + (* LBoth *)
+        destruct (sub_poll c w qa H) as [a' H1] eqn:E1. destruct (sub_poll c w qb H1) as [b' H2] eqn:E2.
+        apply R_sub_poll in E1. apply R_sub_poll in E2.
+        assert (R02 : R H H2) by (eapply R_trans; eassumption).
+        destruct a'; [inversion E; subst; exact R02|].
+        destruct b'; [inversion E; subst; exact R02|].
+        apply IHp in E. eapply R_trans; eassumption.
+      + (* LRace *)
+        destruct (sub_poll c w qa H) as [a' H1] eqn:E1. apply R_sub_poll in E1.
+        destruct a'.
+        * destruct (sub_poll c w qb H1) as [b' H2] eqn:E2. apply R_sub_poll in E2.
+          destruct b'.
+          -- inversion E; subst. eapply R_trans; eassumption.
+          -- apply IHp in E. eapply R_trans; [exact E1|]. eapply R_trans; [exact E2|]. eapply R_trans; [|exact E]. apply R_sub_drop.
+        * apply IHp in E. eapply R_trans; [exact E1|]. eapply R_trans; [|exact E]. apply R_sub_drop.
     - (* poll_next *)
       intros cid w H r H' E. cbn [step_funs rpoll_next] in E. unfold poll_next_body in E.
       destruct (rsettle F cid (ucmd cid (set_atomic (Some w)) H)) as [H1|] eqn:E1; [|discriminate].
